@@ -124,8 +124,11 @@ def build(seed, tier):
             ops.append({'op': 'verify', 'plant': ro.random() < 0.5, 'at': ro.randint(0, 5)})
         elif c < 0.62:
             ops.append({'op': 'tifa', 'plant': ro.random() < 0.6, 'at': ro.randint(0, 5), 'flavour': ro.randint(0, 2)})
-        elif c < 0.66:
+        elif c < 0.65:
             ops.append({'op': 'check_exists', 'n': ro.randint(0, 8)})
+        elif c < 0.665:
+            # run() of the active code with a syntax error in it, without a verify() before (the compiler reports it)
+            ops.append({'op': 'run_syntax', 'at': ro.randint(0, 5)})
         elif c < 0.82:
             ops.append({'op': 'run', 'enumerate': True, 'exc': rf.choice(faults.ORDINARY + ['SystemExit'])})
         elif c < 0.92:
@@ -265,6 +268,24 @@ def execute(spec):
                 if planted is not None:
                     sub.replace_main(code)      # put the section text back
                     o['main_code'] = sub.main_code
+            elif kind == 'run_syntax':
+                code = sub.main_code
+                lines = code.split('\n')
+                real = [i for i, ln in enumerate(lines) if ln.strip() and not ln.startswith('#')]
+                planted = None
+                if real:
+                    at = real[op['at'] % len(real)]
+                    lines[at] = lines[at] + ' = = 1'
+                    planted = at + 1
+                    sub.replace_main('\n'.join(lines))
+                o['planted_local_line'] = planted
+                if planted is not None:
+                    guarded(o, lambda: run())
+                    sub.replace_main(code)
+                    o['main_code'] = sub.main_code
+                else:
+                    o['new_feedback'] = []
+                    snap(o)
             elif kind == 'run':
                 # fault enumeration inside the op: fault-free first, then every LINE event of the active code
                 base = {'op': 'run'}
@@ -430,6 +451,20 @@ def judge(spec, res):
                         viol('syntax-traceback-line', 'traceback text says line %d, original line is %d' % (n, want_line),
                              '/section=%s' % ('prologue' if k == 0 else 'later'))
                         return vs
+        if kind == 'run_syntax' and o.get('planted_local_line') is not None and (in_section or whole_after_past_end):
+            rt = [f for f in o['new_feedback'] if f['category'] == 'runtime' and f.get('exception_name') in ('SyntaxError', 'IndentationError')]
+            if len(rt) == 1:
+                f = rt[0]
+                want_line = cur_off + o['planted_local_line']
+                where = 'past-the-end' if past_end else ('prologue' if k == 0 else 'later')
+                if f['line'] != want_line:
+                    viol('compile-error-location-line', 'syntax error planted on original line %d (section %d, local line %d); run() located it at %r'
+                         % (want_line, k, o['planted_local_line'], f['line']), '/section=%s' % where)
+                    return vs
+                if f['tb_text_lines'] and f['tb_text_lines'][-1] != want_line:
+                    viol('compile-error-traceback-line', 'syntax error on original line %d; traceback text says line %d' % (
+                        want_line, f['tb_text_lines'][-1]), '/section=%s' % where)
+                    return vs
         if kind == 'run' and (in_section or whole_after_past_end or (stopped and o.get('after_stop'))):
             for fo in o.get('faulted', []):
                 if fo.get('raised'):
